@@ -33,13 +33,19 @@ class SpecError(Exception):
 StrSort = z3.DeclareSort('Str')
 AnySort = z3.DeclareSort('Any')
 
+def _san(key):
+    return ''.join(c if c.isalnum() else '_' for c in key)
+
+
 _STR_LITS = dict()      # python str -> z3 const of StrSort
 _DT_CACHE = dict()      # key -> z3 datatype sort
 
 
 def str_lit(s):
     if s not in _STR_LITS:
-        _STR_LITS[s] = z3.Const('str!%s' % s, StrSort)
+        _STR_LITS[s] = z3.Const('str!%s' % _san(s) if _san(s) == s and s
+                                else 'str!%d!%s' % (len(_STR_LITS), _san(s)),
+                                StrSort)
     return _STR_LITS[s]
 
 
@@ -130,17 +136,18 @@ class TOpt(Ty):
 
     def sort(self):
         if self.key not in _DT_CACHE:
-            dt = z3.Datatype(self.key)
-            dt.declare('none')
-            dt.declare('some', ('val', self.elem.sort()))
+            k = _san(self.key)
+            dt = z3.Datatype(k)
+            dt.declare('none_' + k)
+            dt.declare('some_' + k, ('val_' + k, self.elem.sort()))
             _DT_CACHE[self.key] = dt.create()
         return _DT_CACHE[self.key]
 
-    def none(self):      return self.sort().none
-    def some(self, t):   return self.sort().some(t)
-    def is_none(self, t): return self.sort().is_none(t)
-    def is_some(self, t): return self.sort().is_some(t)
-    def val(self, t):    return self.sort().val(t)
+    def none(self):      return self.sort().constructor(0)()
+    def some(self, t):   return self.sort().constructor(1)(t)
+    def is_none(self, t): return self.sort().recognizer(0)(t)
+    def is_some(self, t): return self.sort().recognizer(1)(t)
+    def val(self, t):    return self.sort().accessor(1, 0)(t)
 
 
 class TList(Ty):
@@ -150,17 +157,17 @@ class TList(Ty):
 
     def sort(self):
         if self.key not in _DT_CACHE:
-            dt = z3.Datatype(self.key)
-            dt.declare('mk', ('arr', z3.ArraySort(z3.IntSort(),
+            k = _san(self.key)
+            dt = z3.Datatype(k)
+            dt.declare('mk_' + k, ('arr_' + k, z3.ArraySort(z3.IntSort(),
                                                   self.elem.sort())),
-                             ('len', z3.IntSort()))
+                                  ('len_' + k, z3.IntSort()))
             _DT_CACHE[self.key] = dt.create()
         return _DT_CACHE[self.key]
 
-    def mk(self, arr, ln): return self.sort().mk(arr, ln)
-    def arr(self, t):      return z3.simplify(self.sort().arr(t)) \
-                                  if False else self.sort().arr(t)
-    def len(self, t):      return self.sort().len(t)
+    def mk(self, arr, ln): return self.sort().constructor(0)(arr, ln)
+    def arr(self, t):      return self.sort().accessor(0, 0)(t)
+    def len(self, t):      return self.sort().accessor(0, 1)(t)
 
 
 class TRec(Ty):
@@ -176,14 +183,14 @@ class TRec(Ty):
 
     def sort(self):
         if self.key not in _DT_CACHE:
-            dt = z3.Datatype(self.key)
-            dt.declare('mk', *[(self._acc(f), t.sort())
+            dt = z3.Datatype(_san(self.key))
+            dt.declare('mk_' + _san(self.key), *[(self._acc(f), t.sort())
                                for f, t in self.fields.items()])
             _DT_CACHE[self.key] = dt.create()
         return _DT_CACHE[self.key]
 
     def _acc(self, f):
-        return '%s.%s' % (self.name, f)
+        return '%s__%s' % (_san(self.name), _san(f))
 
     def get(self, t, f):
         srt = self.sort()
@@ -208,17 +215,18 @@ class TMap(Ty):
 
     def sort(self):
         if self.key not in _DT_CACHE:
-            dt = z3.Datatype(self.key)
-            dt.declare('mk', ('val', z3.ArraySort(self.k.sort(),
+            k = _san(self.key)
+            dt = z3.Datatype(k)
+            dt.declare('mk_' + k, ('mval_' + k, z3.ArraySort(self.k.sort(),
                                                   self.v.sort())),
-                             ('dom', z3.ArraySort(self.k.sort(),
+                                  ('mdom_' + k, z3.ArraySort(self.k.sort(),
                                                   z3.BoolSort())))
             _DT_CACHE[self.key] = dt.create()
         return _DT_CACHE[self.key]
 
-    def mk(self, val, dom): return self.sort().mk(val, dom)
-    def val(self, t):       return self.sort().val(t)
-    def dom(self, t):       return self.sort().dom(t)
+    def mk(self, val, dom): return self.sort().constructor(0)(val, dom)
+    def val(self, t):       return self.sort().accessor(0, 0)(t)
+    def dom(self, t):       return self.sort().accessor(0, 1)(t)
 
 
 class TSet(Ty):
@@ -237,8 +245,9 @@ class TTuple(Ty):
 
     def sort(self):
         if self.key not in _DT_CACHE:
-            dt = z3.Datatype(self.key)
-            dt.declare('mk', *[('%s.%d' % (self.key, i), t.sort())
+            k = _san(self.key)
+            dt = z3.Datatype(k)
+            dt.declare('mk_' + k, *[('%s__%d' % (k, i), t.sort())
                                for i, t in enumerate(self.elems)])
             _DT_CACHE[self.key] = dt.create()
         return _DT_CACHE[self.key]
@@ -390,6 +399,10 @@ def coerce(v, ty):
                                  ty.some(inner.term)))
         inner = coerce(v, ty.elem)
         return Val(ty, ty.some(inner.term), inner.py)
+    if isinstance(v.ty, TOpt) and v.ty.elem == ty:
+        # Opt[T] where T is expected: the payload (None here would be a shape
+        # violation, assumption A2)
+        return Val(ty, v.ty.val(v.term))
     if ty == TReal and v.ty == TInt:
         return Val(TReal, z3.ToReal(v.term),
                    float(v.py) if v.has_py() else NOPY)
